@@ -50,6 +50,7 @@ type Contract struct {
 	Header   string // func header as written
 	Key      string // fn.String() of the target
 	Inline   bool
+	Pure     bool // result is a function of the (scalar) arguments: callers see UF(args)
 	Trusted  bool // assumed contract: body is not verified (reported as such)
 	Requires []*Clause
 	Ensures  []*Clause
@@ -136,7 +137,7 @@ func parseContractFile(path, pkgPath string) (*ContractFile, error) {
 				spec = nil
 			}
 			curClause = nil
-		case kw == "inline" || kw == "func" || kw == "trusted":
+		case kw == "inline" || kw == "func" || kw == "trusted" || kw == "pure":
 			hdr := tl
 			c := &Contract{Pkg: pkgPath, Dir: cf.Dir, Loops: map[int]*LoopSpec{}, Line: ln, File: path, id: nextID}
 			nextID++
@@ -146,6 +147,10 @@ func parseContractFile(path, pkgPath string) (*ContractFile, error) {
 			}
 			if kw == "trusted" {
 				c.Trusted = true
+				hdr = rest
+			}
+			if kw == "pure" {
+				c.Pure = true
 				hdr = rest
 			}
 			c.Header = hdr
@@ -384,9 +389,24 @@ func (cf *ContractFile) stub() string {
 	b.WriteString("package " + cf.PkgName + "\n\n")
 	b.WriteString("import (\n\tgvc_fs \"io/fs\"\n\tgvc_time \"time\"\n")
 	seen := map[string]bool{}
+	body := cf.allText()
 	for _, im := range cf.Imports {
-		if !seen[im] {
-			seen[im] = true
+		if seen[im] {
+			continue
+		}
+		seen[im] = true
+		// import only what the clauses mention (unused imports are errors)
+		fs := strings.Fields(im)
+		p := strings.Trim(fs[len(fs)-1], "\"")
+		base := p[strings.LastIndex(p, "/")+1:]
+		if base == "v2" || base == "v3" {
+			q := p[:strings.LastIndex(p, "/")]
+			base = q[strings.LastIndex(q, "/")+1:]
+		}
+		if len(fs) == 2 {
+			base = fs[0]
+		}
+		if strings.Contains(body, base+".") {
 			b.WriteString("\t" + im + "\n")
 		}
 	}
@@ -449,6 +469,41 @@ func (cf *ContractFile) stub() string {
 			for i, cl := range ls.Invs {
 				cl.StubFn = clauseFnName(c, "inv", o, i)
 				fmt.Fprintf(&b, "\nfunc %s(%s) bool { return %s }\n", cl.StubFn, join(c.params, strings.Join(lv, ", ")), cl.Expr)
+			}
+		}
+	}
+	return b.String()
+}
+
+func (cf *ContractFile) allText() string {
+	var b strings.Builder
+	for _, s := range cf.Specs {
+		b.WriteString(s + "\n")
+	}
+	for _, c := range cf.Cs {
+		nstubs := len(c.Requires) + len(c.Ensures) + len(c.Modifies)
+		for _, l := range c.Loops {
+			nstubs += len(l.Invs)
+		}
+		if nstubs > 0 {
+			b.WriteString(c.params + "\n")
+		}
+		if len(c.Ensures) > 0 {
+			b.WriteString(c.results + "\n")
+		}
+		for _, cl := range c.Requires {
+			b.WriteString(cl.Expr + "\n")
+		}
+		for _, cl := range c.Ensures {
+			b.WriteString(cl.Expr + "\n")
+		}
+		for _, cl := range c.Modifies {
+			b.WriteString(cl.Expr + "\n")
+		}
+		for _, l := range c.Loops {
+			b.WriteString(l.Vars + "\n")
+			for _, cl := range l.Invs {
+				b.WriteString(cl.Expr + "\n")
 			}
 		}
 	}
